@@ -91,7 +91,30 @@ pub const PLATFORM_CLASSES: &[&str] = &[
     "java.io.IOException",
     "kotlin.KotlinNullPointerException",
     "android.os.NetworkOnMainThreadException",
+    "java.lang.ClassNotFoundException",
+    "java.lang.NoClassDefFoundError",
+    "java.lang.ExceptionInInitializerError",
 ];
+
+/// File names derived from a class name: simple name and outer simple name with the
+/// usual extensions, and without one.
+pub fn class_files(class: &str) -> Vec<String> {
+    let simple = class.rsplit('.').next().unwrap_or(class);
+    let outer = simple.split('$').next().unwrap_or(simple);
+    let mut v = vec![];
+    for stem in [simple, outer] {
+        if stem.is_empty() || stem.contains(':') || stem.contains('(') || stem.contains(')') || stem.contains('\0') {
+            continue;
+        }
+        for ext in [".java", ".kt", ""] {
+            let f = format!("{stem}{ext}");
+            if !v.contains(&f) {
+                v.push(f);
+            }
+        }
+    }
+    v
+}
 
 /// The complete finite name/line universe of a file (design §3.3).
 pub fn names_of(ast: &MapAst) -> Names {
@@ -187,6 +210,16 @@ pub fn names_of(ast: &MapAst) -> Names {
     push(&mut n.args, "no.such.Type");
     push(&mut n.args, "in");
     n.files = vec!["SourceFile".to_string(), "Query.java".to_string()];
+    // file names a tool would synthesise from a class name (what `at a.b.c(c.java:3)` carries
+    // when the debug info only has the obfuscated name)
+    let orig_classes: Vec<&str> = ast.items.iter().filter_map(|i| if let Item::Class { orig, .. } = i { Some(orig.as_str()) } else { None }).collect();
+    for c in base.iter().map(|s| s.as_str()).chain(orig_classes.into_iter()).take(24) {
+        for f in class_files(c) {
+            if !n.files.contains(&f) {
+                n.files.push(f);
+            }
+        }
+    }
     for v in [U32M - 2, U32M - 1, U32M, U32M + 1, u64::MAX as u128] {
         lines.push(v);
     }
@@ -235,13 +268,17 @@ impl<'a> TraceGen<'a> {
         } else {
             rng.pick(PLATFORM_CLASSES).to_string()
         };
-        let message = match rng.below(12) {
+        // class-loading errors carry a class name as their whole message
+        let loading = class == "java.lang.ClassNotFoundException" || class == "java.lang.NoClassDefFoundError";
+        let message = match if loading && rng.chance(3, 4) { 4 } else { rng.below(12) } {
             0..=3 => None,
             4 => {
                 // a message that is exactly a class name of the universe (e.g. ClassNotFoundException)
                 let c = rng.pick(&self.names.classes);
                 if c.is_empty() || c.contains('\0') || c.trim() != c.as_str() {
                     Some("x".to_string())
+                } else if rng.chance(1, 3) {
+                    Some(c.replace('.', "/")) // the spelling NoClassDefFoundError uses
                 } else {
                     Some(c.clone())
                 }
@@ -258,7 +295,9 @@ impl<'a> TraceGen<'a> {
             let (c, m, l) = rng.pick(&self.names.hot).clone();
             let ok = |s: &str| !s.is_empty() && !s.contains('\0') && !s.contains('(') && !s.contains(' ');
             if ok(&c) && ok(&m) && !m.contains('.') {
-                let file = if with_file || rng.chance(2, 3) {
+                let file = if rng.chance(1, 4) && !class_files(&c).is_empty() {
+                    Some(rng.pick(&class_files(&c)).clone())
+                } else if with_file || rng.chance(2, 3) {
                     Some(rng.pick(&["SourceFile", "Main.java", "a b.kt", "<unknown>", "Ünï.kt"]).to_string())
                 } else {
                     None
@@ -283,7 +322,9 @@ impl<'a> TraceGen<'a> {
             }
         };
         let line = *rng.pick(&self.names.lines);
-        let file = if with_file || rng.chance(2, 3) {
+        let file = if rng.chance(1, 5) && !class_files(&class).is_empty() {
+            Some(rng.pick(&class_files(&class)).clone())
+        } else if with_file || rng.chance(2, 3) {
             Some(rng.pick(&["SourceFile", "Main.java", "a b.kt", "<unknown>", "Ünï.kt"]).to_string())
         } else {
             None
@@ -311,6 +352,12 @@ impl<'a> TraceGen<'a> {
             let mut c = self.trace(rng, depth - 1, canonical);
             if c.exception.is_none() {
                 c.exception = Some(self.throwable(rng));
+            }
+            // `new RuntimeException(cause)`: the wrapper's message is the cause's toString()
+            if rng.chance(1, 5) {
+                if let (Some(e), Some(ce)) = (exception.as_mut(), c.exception.as_ref()) {
+                    e.message = Some(ce.print());
+                }
             }
             Some(Box::new(c))
         } else {
